@@ -158,8 +158,14 @@ func cmdCheck(args []string) int {
 		if *prop != "" && !hasProp(c, *prop) {
 			continue
 		}
-		if *only != "" && !strings.Contains(k, *only) {
-			continue
+		if *only != "" {
+			if strings.HasSuffix(*only, "$") {
+				if !strings.HasSuffix(k, strings.TrimSuffix(*only, "$")) {
+					continue
+				}
+			} else if !strings.Contains(k, *only) {
+				continue
+			}
 		}
 		cons = append(cons, c)
 	}
@@ -302,8 +308,29 @@ func report(p *Prog, prop, tier string, seed int, results []*FuncResult, loadT, 
 		if fr.Con != nil {
 			deadLoops, _ = strconv.Atoi(fr.Con.Opts["dead_loops"])
 		}
+		// back-edge covers: a loop is fine when at least one of its back edges is reachable
+		backSat := map[string]bool{}
+		for _, o := range fr.Obls {
+			if o.Expect == "sat" && strings.HasPrefix(o.Kind, "cover.back") && o.Status != "unsat" {
+				backSat[o.Kind] = true
+			}
+		}
+		deadLoopKinds := map[string]bool{}
 		for _, o := range fr.Obls {
 			solverTime += o.Time
+			if o.Expect == "sat" && strings.HasPrefix(o.Kind, "cover.back") {
+				covers++
+				ord := strings.TrimPrefix(o.Kind, "cover.back")
+				if o.Status != "unsat" || backSat[o.Kind] || deadLoopKinds["cover.loop"+ord] {
+					coversOK++
+				} else if fr.Con != nil && fr.Con.Opts["dead_backedges"] != "" {
+					coversOK++
+				} else {
+					vacuous = append(vacuous, o)
+					ok = false
+				}
+				continue
+			}
 			if o.Expect == "sat" {
 				covers++
 				if o.Status == "unsat" && o.Kind == "cover.return" && deadOK > 0 {
@@ -311,6 +338,7 @@ func report(p *Prog, prop, tier string, seed int, results []*FuncResult, loadT, 
 					coversOK++
 				} else if o.Status == "unsat" && strings.HasPrefix(o.Kind, "cover.loop") && deadLoops > 0 {
 					deadLoops--
+					deadLoopKinds[o.Kind] = true
 					coversOK++
 				} else if o.Status == "unsat" {
 					vacuous = append(vacuous, o)
